@@ -60,6 +60,33 @@ Example C07_example :
     = Ok (Some (VPair (VPair (VList [VTok 97%N]) (VSpan 0 1)) (VPair (VSpan 1 1) (VSlice 1 3)))).
 Proof. vm_compute. reflexivity. Qed.
 
+(* Input::map / IterInput cursors cache the end offset of the token consumed last (written by next / next_ref, restored with the
+   cursor on rewind): for every cursor the parser can hold - k tokens after the start - the cache is the end of token k-1, and
+   the span the code computes from two such cursors is the model's span formula (first token's start to last token's end) *)
+Theorem C07_mapped_cursor_cache_is_the_end_of_the_previous_token :
+  forall spans k c, mc_walk spans k mc_init = Some c ->
+    mc_idx c = k /\ mc_end c = match k with 0 => None | S j => option_map snd (nth_error spans j) end.
+Proof.
+  intros spans k c W. destruct (mc_walk_ok spans k mc_init c (mc_init_ok spans) W) as (H & I).
+  cbn [mc_idx mc_init] in I. rewrite Nat.add_0_r in I. split; [exact I|]. unfold mc_ok in H. now rewrite I in H.
+Qed.
+
+Theorem C07_mapped_span_code_computes_the_span_formula :
+  forall spans eoi k1 k2 c1 c2, mc_walk spans k1 mc_init = Some c1 -> mc_walk spans k2 mc_init = Some c2 ->
+    mapped_span spans eoi c1 c2 = spn_mapped false spans eoi k1 k2.
+Proof.
+  intros spans eoi k1 k2 c1 c2 W1 W2.
+  destruct (mc_walk_ok spans k1 mc_init c1 (mc_init_ok spans) W1) as (H1 & I1).
+  destruct (mc_walk_ok spans k2 mc_init c2 (mc_init_ok spans) W2) as (H2 & I2).
+  cbn [mc_idx mc_init] in I1, I2. rewrite Nat.add_0_r in I1, I2. rewrite <- I1, <- I2. now apply mapped_cursor_refines.
+Qed.
+
+Example C07_mapped_cursor_example :
+  let spans := [(2, 4); (6, 9); (12, 13)] in
+  option_map (fun c2 => mapped_span spans 20 mc_init c2) (mc_walk spans 2 mc_init) = Some (2, 9)
+  /\ option_map (fun c1 => option_map (fun c2 => mapped_span spans 20 c1 c2) (mc_walk spans 3 mc_init)) (mc_walk spans 1 mc_init) = Some (Some (6, 13)).
+Proof. split; vm_compute; reflexivity. Qed.
+
 Print Assumptions C07_to_span_is_consumed_extent.
 Print Assumptions C07_to_slice_is_consumed_extent.
 Print Assumptions C07_map_with_span_is_consumed_extent.
@@ -67,3 +94,5 @@ Print Assumptions C07_extent_wellformed.
 Print Assumptions C07_machine_spans_are_specified.
 Print Assumptions C07_mapped_nonempty_first_to_last.
 Print Assumptions C07_mapped_empty_is_empty.
+Print Assumptions C07_mapped_cursor_cache_is_the_end_of_the_previous_token.
+Print Assumptions C07_mapped_span_code_computes_the_span_formula.
